@@ -271,8 +271,9 @@ def finish(pid, tier, obligations, t0, level="model_checking",
     }
     if machinery_error:
         ev["coverage"]["machinery_error"] = machinery_error
-    os.makedirs(os.path.join(VERIF, "evidence"), exist_ok=True)
-    with open(os.path.join(VERIF, "evidence", pid + ".json"), "w") as fh:
+    evdir = os.environ.get("VERIF_EVIDENCE_DIR") or os.path.join(VERIF, "evidence")
+    os.makedirs(evdir, exist_ok=True)
+    with open(os.path.join(evdir, pid + ".json"), "w") as fh:
         json.dump(ev, fh, indent=1, default=str)
     for l in lines:
         print(l)
